@@ -237,7 +237,7 @@ _worker = dyn.make_worker(judge, uses_held=lambda names: True)
 
 # ---------------------------------------------------------------- (b) arbitrary pairs
 def pair_universe(tier):
-    shape = (2, 2) if tier == 'quick' else (2, 3)
+    shape = (2, 2)
     sigma = [U.WALL, U.exit_(0), U.key(U.C1), U.door(1, U.C1), U.door(0, U.C1), U.OBST, U.beacon(U.C1)]
     if tier == 'quick':
         sigma = sigma[:5] + [U.OBST]
